@@ -139,6 +139,30 @@ def case_function(case):
             if abs(state[v] - want) > sympy.Float("1e-9") * (1 + abs(want)):
                 problems.append({"what": "stepping does not reproduce f", "variable": v, "T": str(T), "steps": [str(x) for x in steps], "observed": str(state[v]), "expected": str(want)})
                 break
+    # ---- the replacing ODE itself, as the numeric solver returns it when the analytic solver is disabled: f, f', ... must satisfy it
+    try:
+        tb.reset_config()
+        res_n = odetoolbox.analysis(json.loads(json.dumps(indict)), disable_stiffness_check=True, disable_analytic_solver=True)
+        sn = [s_ for s_ in res_n if s_["solver"].startswith("numeric")]
+        if sn:
+            nv = sn[0]["state_variables"]
+            der_n = [sympy.diff(fexpr, t, k) for k in range(len(nv) + 1)]
+            out["ode_form_checked"] = True
+            for tv in (sympy.Rational(rng.randint(1, 60), 40), sympy.Rational(rng.randint(1, 60), 40)):
+                d = {sympy.Symbol(v): sympy.N(der_n[k].subs(t, tv), 40) for k, v in enumerate(nv)}
+                for k, v in enumerate(nv):
+                    e = refsol.parse(sn[0]["update_expressions"][v]).subs(pv)
+                    if t in e.free_symbols:
+                        problems.append({"what": "replacing ODE names the time variable", "variable": v})
+                        break
+                    got = sympy.N(e.subs(d), 40)
+                    want = sympy.N(der_n[k + 1].subs(t, tv), 40)
+                    if abs(got - want) > sympy.Float("1e-9") * (1 + abs(want)):
+                        problems.append({"what": "f does not satisfy the replacing ODE (analytic solver disabled)", "variable": v, "t": str(tv),
+                                         "equation": sn[0]["update_expressions"][v], "observed": str(got), "expected": str(want)})
+                        break
+    except BaseException as e:
+        out["ode_form_error"] = type(e).__name__ + ": " + str(e)[:100]
     out["problems"] = problems
     return out
 
@@ -212,6 +236,11 @@ def run(ctx, driver):
         for p in res.get("problems") or []:
             ctx.fail("function-not-reproduced", case, {"problem": p, "state_variables": res.get("state_variables"), "signature": dict(sig, what=p["what"])})
             break
+        if res.get("ode_form_checked"):
+            ctx.count("ode_form_checked")
+        if "ode_form_error" in res:
+            ctx.count("ode_form_error")
+            ctx.cov.setdefault("ode_form_errors", []).append(res["ode_form_error"])
         if "problems" in res:
             ctx.count("stepping_checked")
         elif "analysis_error" in res:
